@@ -24,6 +24,11 @@ def cells_for_codec(tier, rng):
                     top = 4 ** (r - 1)
                     if (o + sg) % 5 == 0:
                         Ss += [top, top + 1, -1, -top, 2 * top - 1]
+                    if (o + sg) % 5 == 1 or tier == 'thorough':
+                        # far out of range: multiples of the field width that wrap past bit 64, powers of two, huge values
+                        k = rng.randint(1, 5)
+                        Ss += [top * 64, top * 64 * k + rng.randrange(top), top << rng.randint(1, 12), (1 << 64) + rng.randrange(top),
+                               1 << rng.randint(58, 130), top * (1 << rng.randint(3, 40)) + 1]
                 for S in Ss:
                     out.append((o, sg, S, r))
     # odd segments
@@ -249,6 +254,33 @@ def compact_inputs(tier, rng):
             cells.pop(rng.randrange(len(cells)))
         rng.shuffle(cells)
         lists.append(cells)
+    # arithmetic progressions of ids with every plausible stride (the algorithm is stride based): cousins that look like siblings
+    from refids import ref_decode
+    for _ in range(60 if tier == 'quick' else 1500):
+        r = rng.randint(0, MAXV)
+        top6 = rng.randrange(12 if r == 0 else 60)
+        S = 0 if r < 2 else (rng.randrange(4 ** (r - 1)) // 4) * 4 if rng.random() < 0.7 else rng.randrange(4 ** (r - 1))
+        if rng.random() < 0.5:
+            top6 = (top6 // 5) * 5 if r >= 1 else 0
+        c = ref_id(top6, S, r)
+        w = 60 - 2 * r if r >= 2 else 58
+        for e in {58, 56, 57, w, w + 2, w - 2, w + 4}:
+            if e < 0:
+                continue
+            for k in (4, 5, 12):
+                ap = [c + j * (1 << e) for j in range(k)]
+                ap = [x for x in ap if ref_decode(x) is not None]
+                if len(ap) >= 2:
+                    extra = [random_valid_id(rng, 0, min(MAXV, r + 1)) for _ in range(rng.randint(0, 2))]
+                    l = ap + extra
+                    rng.shuffle(l)
+                    lists.append(l)
+    # same position in consecutive segments / faces (cousins), at every resolution
+    for r in range(1, MAXV + 1):
+        for _ in range(2 if tier == 'quick' else 10):
+            S = 0 if r < 2 else rng.choice([0, 0, rng.randrange(4 ** (r - 1))])
+            t0 = rng.randrange(56)
+            lists.append([ref_id(t0 + j, S, r) for j in range(rng.choice([4, 5]))])
     # large random multisets of valid ids, all resolutions
     for _ in range(10 if tier == 'quick' else 200):
         n = rng.randint(50, 400 if tier == 'quick' else 3000)
